@@ -257,9 +257,11 @@ def lines (recurse : List Char → St → Except CErr (St × Nat)) (optU optR : 
 def catlog (F : Forest) (optU optR : Bool) : Nat → List Char → St → Except CErr (St × Nat)
   | 0, _, _ => .error .outOfFuel
   | fuel + 1, t, st =>
-    if t ∈ st.already then .ok (st, 0)
+    -- keyed by the cleaned path, as the callers' `fixname` is (repaired in /repo: a target reached through another
+    -- relative spelling was shown twice)
+    if normpath t ∈ st.already then .ok (st, 0)
     else
-      let st := { st with already := t :: st.already }
+      let st := { st with already := normpath t :: st.already }
       match lookup F t with
       | none => .error .unknownTarget
       | some none => .ok (st, 0)
